@@ -46,6 +46,7 @@ type Runner struct {
 
 	commitHeight int64 // LastBlockHeight / LastCommitID().Hash / block time right after the last Commit
 	commitHash   []byte
+	checkBytes   map[int][]byte // signed bytes of the CHECK lines, by number (for RECHECK)
 	commitTime   time.Time
 	checkZero    bool // the check state carries a header with height 0 (after InitChain, after a restart)
 
@@ -154,7 +155,7 @@ type signer struct {
 }
 
 // signTx builds and signs a transaction in SIGN_MODE_DIRECT (empty memo, no timeout).
-func (r *Runner) signTx(msgs []sdk.Msg, fee sdk.Coins, granter sdk.AccAddress, signers []signer) ([]byte, error) {
+func (r *Runner) signTx(msgs []sdk.Msg, fee sdk.Coins, granter, payer sdk.AccAddress, signers []signer) ([]byte, error) {
 	cfg := r.App.TxConfig()
 	txb := cfg.NewTxBuilder()
 	if err := txb.SetMsgs(msgs...); err != nil {
@@ -164,6 +165,9 @@ func (r *Runner) signTx(msgs []sdk.Msg, fee sdk.Coins, granter sdk.AccAddress, s
 	txb.SetGasLimit(GasLimit)
 	if granter != nil {
 		txb.SetFeeGranter(granter)
+	}
+	if payer != nil {
+		txb.SetFeePayer(payer)
 	}
 	return signWith(cfg, txb, signers)
 }
@@ -218,6 +222,14 @@ func (r *Runner) encode(ctx sdk.Context, t script.Tx, genesis bool) ([]byte, err
 		}
 		granter = r.Sym.Addrs[i]
 	}
+	var payer sdk.AccAddress
+	if t.Payer != "-" && t.Payer != "" {
+		i, err := r.Sym.AcctIndex(t.Payer)
+		if err != nil {
+			return nil, err
+		}
+		payer = r.Sym.Addrs[i]
+	}
 	var signers []signer
 	for k, tok := range t.Signers {
 		i, err := r.Sym.AcctIndex(tok)
@@ -237,7 +249,7 @@ func (r *Runner) encode(ctx sdk.Context, t script.Tx, genesis bool) ([]byte, err
 		}
 		signers = append(signers, s)
 	}
-	return r.signTx(msgs, fee, granter, signers)
+	return r.signTx(msgs, fee, granter, payer, signers)
 }
 
 // Deliver executes a TX line in the open block.
@@ -271,7 +283,22 @@ func (r *Runner) Check(t script.Tx) (Outcome, error) {
 	if err != nil {
 		return Outcome{}, err
 	}
+	if r.checkBytes == nil {
+		r.checkBytes = map[int][]byte{}
+	}
+	r.checkBytes[t.N] = bz
 	res := r.App.CheckTx(abci.RequestCheckTx{Tx: bz, Type: abci.CheckTxType_New})
+	return Outcome{Class: classify(res.Code, res.Codespace), Codespace: res.Codespace, Code: res.Code, Log: res.Log}, nil
+}
+
+// Recheck re-validates the bytes of an earlier CHECK line the way CometBFT re-validates its mempool after a commit
+// (CheckTx of type Recheck on the check state).
+func (r *Runner) Recheck(ref int) (Outcome, error) {
+	bz, ok := r.checkBytes[ref]
+	if !ok {
+		return Outcome{}, fmt.Errorf("RECHECK: no CHECK %d before", ref)
+	}
+	res := r.App.CheckTx(abci.RequestCheckTx{Tx: bz, Type: abci.CheckTxType_Recheck})
 	return Outcome{Class: classify(res.Code, res.Codespace), Codespace: res.Codespace, Code: res.Code, Log: res.Log}, nil
 }
 
